@@ -31,6 +31,7 @@ COMBINATORS = {
     "std::option::Option::<T>::is_some_and": (OPTION, "is_some_and"),
     "std::option::Option::<T>::is_none_or": (OPTION, "is_none_or"),
     "std::option::Option::<T>::zip": (OPTION, "zip"),
+    "std::option::Option::<T>::filter": (OPTION, "filter"),
     "std::result::Result::<T, E>::map": (RESULT, "map"),
     "std::result::Result::<T, E>::and_then": (RESULT, "and_then"),
     "std::result::Result::<T, E>::unwrap_or_else": (RESULT, "unwrap_or_else"),
@@ -151,7 +152,7 @@ def _normalise_call(body, bi, closures):
         return False
     # the function argument must be a closure built here or a function path; otherwise leave the call alone
     fpos = {"map": [1], "map_or": [2], "map_or_else": [1, 2], "and_then": [1], "unwrap_or_else": [1], "map_err": [1], "unwrap": [], "ok_or_else": [1],
-            "is_some_and": [1], "is_none_or": [1], "zip": []}[shape]
+            "is_some_and": [1], "is_none_or": [1], "zip": [], "filter": [1]}[shape]
     for p in fpos:
         if p >= len(args):
             return False
@@ -198,6 +199,19 @@ def _normalise_call(body, bi, closures):
         hit = _apply_fn(bld, body, closures, args[1], [pay], dest, cont)
         miss = bld.block([bld.assign(copy.deepcopy(dest), {"k": "use", "op": {"k": "const", "ty": "bool", "val": "false" if shape == "is_some_and" else "true",
                                                                                 "int": 0 if shape == "is_some_and" else 1}})], bld.goto(cont))
+    elif shape == "filter":
+        # opt.filter(p) = match opt { Some(x) if p(&x) => Some(x), _ => None }
+        keep = bld.local("bool")
+        none_blk = bld.block([bld.assign(copy.deepcopy(dest), bld.agg(OPTION, "None", 0, []))], bld.goto(cont))
+        some_blk = bld.block([bld.assign(copy.deepcopy(dest), {"k": "through", "adt": OPTION, "variant": "Some", "op": {"l": rl, "p": [], "ty": "", "k": "move"}})], bld.goto(cont))
+        test = bld.block([], {"k": "switch", "discr": {"l": keep, "p": [], "ty": "bool", "k": "move"}, "targets": [[0, none_blk]], "otherwise": some_blk, "span": span})
+        ref_tmp = bld.local("")
+        pre = _apply_fn(bld, body, closures, args[1], [{"l": ref_tmp, "p": [], "ty": "", "k": "move"}], bld.plain(keep, "bool"), test)
+        if pre is None:
+            return False
+        hit = bld.block([bld.assign(bld.plain(ref_tmp), {"k": "ref", "mut": False, "place": {"l": rl, "p": [{"dc": 1, "name": "Some"}, {"f": 0, "name": "0", "ty": ""}], "ty": ""}})],
+                        bld.goto(pre))
+        miss = none_blk
     elif shape == "zip":
         # a.zip(b) = match (a, b) { (Some(x), Some(y)) => Some((x, y)), _ => None }
         other = args[1]
